@@ -128,7 +128,7 @@ func (c *c05) Run(cs core.Case) core.Result {
 	// size or more blocks leaves behind).
 	p2PreCreate = nil
 	var preSnap map[string]string
-	if p.Seed%4 == 1 && p.Kind != "limit" && p.Kind != "over-limit" {
+	if p.Seed%4 == 1 && p.Kind != "limit" && p.Kind != "over-limit" && p.Kind != "obstacle" {
 		p2PreCreate = func(dir, idx string, paths []string) {
 			older := set.SliceSize / 2
 			if older < 4 || older%4 != 0 {
